@@ -367,6 +367,10 @@ def run(db, rep, tier):
     endian_arms(db, rep)
     selector_accessors(db, rep)
     wide_hw_setters(db, rep)
+    rep.rule("R3-tags", "(C05.R3 mirror pairing, re-run here: a setter keeps the private mirror of its field in step, otherwise the value set is not the one "
+                           "serialised)", 1)
+    from rules import c05
+    c05.r3_mirrors(db, rep)
     rep.extra["pairs"] = dict(stats)
     if stats.get("address-order checked", 0) < 10:
         rep.analysis_broken("only %d address-typed setters found for R6" % stats.get("address-order checked", 0))
